@@ -39,6 +39,10 @@ def run(tier):
             rep.broke('dispatch matrix incomplete: %d (ToS,opcode) pairs not covered for mapper_known %s' % (missing, '== 0' if kk == 0 else '!= 0'))
         else:
             rep.ok('R05.cov')
+    # a brand-new interface has no mapper: its record is created all-zero (mapper_known == 0), keyed by its context
+    from .state_record import check_state_for_iface
+    rep.rule('R05.5', 'the record created for an interface\'s first frame is entirely zero (no active mapper) and keyed by the context', floor=3)
+    check_state_for_iface(rep, fs.prog, 'R05.5')
     rep.analysed.update({'final_states': sum(len(v) for v in sums.values()), 'regions': {r: len(v) for r, v in sums.items()},
                          'cells_classified': ncells, 'engine': {r: {k: v for k, v in s.items() if k in ('steps', 'max_states')} for r, s in stats.items()}})
     return finish(rep, 'proof',
